@@ -1,6 +1,6 @@
 ---------------------------- MODULE AlDriverTrace ----------------------------
-(* Trace validation for C14: the AL control writes (w, value), AL status reads (r, reported
-   state and error flag) and the outcome (ret / raise / stall) recorded from the real
+(* Trace validation for C14: the AL control writes (w, value), AL status reads (r, the raw
+   register value, decoded here) and the outcome (ret / raise / stall) recorded from the real
    Terminal.to_operational against the simulated terminal must be a behaviour of AlDriver.
    The terminal's choices (delays, error) are bound by the reported values; the master's
    actions must be enabled, i.e. allowed by the property.  A stall matches no action.        *)
@@ -15,7 +15,8 @@ TInit == /\ tid \in 1 .. Len(Traces) /\ l = 1
 
 TRead(e) == /\ e.op = "r"
             /\ \E inject \in BOOLEAN : MRead(inject)
-            /\ tst' = e.st /\ terr' = e.err
+            \* AL status register: bits 0..3 state, bit 4 error indicator, nothing else
+            /\ tst' = e.raw % 16 /\ terr' = ((e.raw \div 16) % 2 = 1)
 TWriteEv(e) == /\ e.op = "w"
                /\ IF e.val = AckInit THEN \E d \in 0 .. K : MAck(d)
                   ELSE \E d \in 0 .. K : MRequest(e.val, d)
